@@ -103,6 +103,10 @@ func verify(f *os.File, opts signers.VerifyOpts) ([]*signers.Signature, error) {
 	}
 	files := make(zipFiles, len(inz.File))
 	for _, f := range inz.File {
+		// only one part of a name would be compared with the signed manifest
+		if files[f.Name] != nil {
+			return nil, errors.New("part " + f.Name + " appears more than once in the package")
+		}
 		files[f.Name] = f
 	}
 	// find and parse the signature XML
